@@ -184,8 +184,22 @@ def build(kind, sel):
                 h.read()
                 h.seek(0)
         return dict(base=base, handles=[hs[i] for i in sel], writable=False, keep=[r] + hs)
+    if kind == 'dpfs_writes':
+        # several views of one DPFS level 3, written with overlapping multi-block data: the outcome depends on the order, but it must be
+        # the outcome of SOME order
+        from pyctr.crypto.engine import CryptoEngine
+        from pyctr.type.save.diff import DIFF
+        from pyctr.type.save.partdesc.dpfs import DPFSLevel3FileIO
+        base = TT.TBase(io.BytesIO(im['diff']))
+        r = DIFF(base, crypto=CryptoEngine(setup_b9_keys=False))
+        lv3 = r.partitions[0].dpfs_lv3_file._lv3
+        hs = [DPFSLevel3FileIO(lv3) for _ in range(3)]
+        return dict(base=base, handles=[hs[i] for i in sel], writable=True, keep=[r, lv3] + hs, block=lv3._block_size, size=lv3.size)
     raise ValueError(kind)
 
+
+# scenarios whose threads write overlapping ranges: any forced schedule must give the outcome of one of the serial orders
+ORDER_DEPENDENT = ('dpfs_writes',)
 
 SCENARIOS = [
     ('windows', [(0, 1), (0, 2), (0, 1, 2)]),
@@ -202,6 +216,7 @@ SCENARIOS = [
     ('nand', [(0, 1), (0, 2), (2, 3), (0, 4), (3, 5), (2, 4), (0, 2, 3)]),
     ('disa', [(0, 1), (0, 2)]),
     ('disa_cold', [(0, 1), (0, 2)]),
+    ('dpfs_writes', [(0, 1), (0, 1, 2)]),
 ]
 
 
@@ -227,6 +242,13 @@ def gen_ops(rng, kind, sel):
     TT.name_objects(sc['handles'] + [sc['base']])
     sizes = [min(handle_size(h), 0x2000) for h in sc['handles']]
     ops = []
+    if kind in ORDER_DEPENDENT:
+        bs, size = sc['block'], sc['size']
+        for i, h in enumerate(sc['handles']):
+            a = min(max(0, size - 1), rng.choice([0, bs // 2, bs - 1, bs]))
+            n = max(1, min(size - a, rng.choice([2 * bs, 2 * bs + 3, 3 * bs])))
+            ops.append([('seek', a), ('write', bytes([0x41 + i]) * n), ('seek', a), ('read', n)])
+        return [[list(o) if o[0] != 'write' else ['write', o[1].hex()] for o in t] for t in ops]
     for i, h in enumerate(sc['handles']):
         # writes of different threads go to disjoint thirds of the smallest handle (so the final image is order-independent)
         w = sc['writable'] and kind in ('windows',) or (kind == 'nand' and i < 3)
@@ -257,6 +279,31 @@ def run_case(ctx, mr, case, instances=None):
         traces.append(ev)
         serial.append(out)
     serial_image = image_bytes(sc)
+    outcomes = None
+    if kind in ORDER_DEPENDENT:
+        # every call is atomic, the calls of different threads may come in any order: all interleavings of the threads' (seek, call)
+        # units, each run one after another on a fresh container
+        units = [[ops[i][k:k + 2] for k in range(0, len(ops[i]), 2)] for i in range(n)]
+
+        def interleavings(rest):
+            if all(not u for u in rest):
+                yield []
+                return
+            for i, u in enumerate(rest):
+                if u:
+                    for tail in interleavings([x[1:] if j == i else x for j, x in enumerate(rest)]):
+                        yield [i] + tail
+        outcomes = []
+        for order in interleavings([list(range(len(u))) for u in units]):
+            scp = build(kind, sel)
+            res = [[] for _ in range(n)]
+            nxt = [0] * n
+            for i in order:
+                res[i] += run_ops(scp['handles'][i], units[i][nxt[i]])
+                nxt[i] += 1
+            o = (res, image_bytes(scp))
+            if o not in outcomes:
+                outcomes.append(o)
     tr = SM.translate(traces)
     sizes = {TT.name_of(sc['base']): (sc['base'].inner.size if 'sparse' in sc else len(sc['base'].inner.getvalue()))}
     ctx.stat('scenarios')
@@ -286,6 +333,13 @@ def run_case(ctx, mr, case, instances=None):
         cinfo = dict(case, schedule=[e for e in executed if isinstance(e, int)][:400])
         if any(isinstance(e, tuple) for e in executed):
             ctx.diff('oracle', f'deadlock:{kind}:{list(sel)}', cinfo, 'all threads finish', 'deadlock', f'{kind}{list(sel)}: threads block each other forever ({executed[-1]})')
+            continue
+        if outcomes is not None:
+            if any(e is not None for e in errors):
+                ctx.diff('oracle', f'raises:{kind}:{list(sel)}', cinfo, 'no exception', str([pyenv.errname(e) for e in errors if e is not None]), f'{kind}{list(sel)}: a thread raises')
+            elif (list(results), image_bytes(sc2)) not in outcomes:
+                ctx.diff('oracle', f'not-serialisable:{kind}:{list(sel)}', cinfo, 'the outcome of one of the orders of the calls', 'none of them',
+                         f'{kind}{list(sel)}: what the threads read back and what the file holds is not the outcome of ANY order of the calls, each taken as a whole')
             continue
         for i in range(n):
             if errors[i] is not None:
